@@ -18,7 +18,9 @@ from cklref import refvalue as rv, refexpr as rx
 RULE = ("exhaustive: every ordered pair of the 16 binary operators (+ - * / % == != <> < <= > >= is and or, plus "
         "in/not in next to comparison/and/or) in `a op1 b op2 c` over typed and ill-typed operand triples, every "
         "unary/binary combination, every predicate form x pool value; random: typed expression trees to depth 5 "
-        "with 6% ill-typed operands and tick() probes in and/or clauses; integer laws on pairs up to 10^30; a "
+        "with 6% ill-typed operands and tick() probes in and/or clauses; the same trees with literals turned into "
+        "variables, evaluated as one function body over successive argument tuples (some ill-typed) and over variables "
+        "whose values were reached by in-place edits after a first evaluation; integer laws on pairs up to 10^30; a "
         "case is one expression tree (or operand tuple); non-trivial = at least 2 operators (1 for laws); "
         "distinct by tree/tuple")
 ASSUMPTIONS = [
@@ -41,6 +43,7 @@ def plan(tier, seed):
     specs += [{"kind": "random", "n": 4000 if tier == "quick" else 15000} for _ in range(n)]
     specs += [{"kind": "laws", "n": 3000 if tier == "quick" else 40000} for _ in range(2 if tier == "quick" else 6)]
     specs += [{"kind": "predicates"}]
+    specs += [{"kind": "rebind", "n": 1500 if tier == "quick" else 8000} for _ in range(3 if tier == "quick" else 12)]
     return specs
 
 
@@ -285,6 +288,254 @@ def run_random(spec, ctx):
         check_tree(R, t, "random", ticks=ticks and g.tick_id > 0)
 
 
+def abstract_leaves(t, r, names, p=0.6, limit=5):
+    """replace literal leaves by variables (left to right); names collects (name, original value)"""
+    k = t[0]
+    if k == "lit":
+        if len(names) < limit and r.random() < p:
+            n = "v%d" % len(names)
+            names.append((n, t[1]))
+            return ("var", n)
+        return t
+    if k in ("var", "src"):
+        return t
+    if k == "tick":
+        return ("tick", t[1], abstract_leaves(t[2], r, names, p, limit))
+    if k == "bin":
+        a = abstract_leaves(t[2], r, names, p, limit)
+        if t[1] == "*" and t[3][0] == "lit" and not is_numeric_tree(t[2]):
+            return ("bin", t[1], a, t[3])     # the repeat count of a string/list stays a small literal
+        return ("bin", t[1], a, abstract_leaves(t[3], r, names, p, limit))
+    if k in ("neg", "pos", "not"):
+        return (k, abstract_leaves(t[1], r, names, p, limit))
+    if k == "chain":
+        return ("chain", [abstract_leaves(e, r, names, p, limit) for e in t[1]], t[2])
+    if k in ("and", "or"):
+        return (k, [abstract_leaves(e, r, names, p, limit) for e in t[1]])
+    if k in ("in", "notin"):
+        a = abstract_leaves(t[1], r, names, p, limit)
+        return (k, a, abstract_leaves(t[2], r, names, p, limit))
+    raise ValueError(k)
+
+
+def is_numeric_tree(t):
+    k = t[0]
+    if k == "lit":
+        return t[1][0] in ("int", "dec", "null", "bool")
+    if k == "src":
+        return t[2][0] in ("int", "dec")
+    if k == "bin":
+        return is_numeric_tree(t[2]) and is_numeric_tree(t[3])
+    if k in ("neg", "pos"):
+        return is_numeric_tree(t[1])
+    return k in ("chain", "and", "or", "not", "in", "notin", "tick")
+
+
+def other_value(g, r, av):
+    """another value for a variable: mostly the same kind, sometimes ill-typed or NULL"""
+    k = av[0]
+    x = r.random()
+    if x < 0.08:
+        # (never a string or list where a number stood: 'a' * 2^63 is an allocation question, not a semantics one)
+        return r.choice([rv.NULL, ("bool", True), ("int", 0)] if k in ("int", "dec") else [rv.NULL, ("bool", True), ("str", "a"), ("int", 0)])
+    if k == "int":
+        return r.choice([g.lit_int()[1], ("int", 0), ("int", av[1] + 1), ("dec", float(r.choice(ge.DECS)))])
+    if k == "dec":
+        return r.choice([g.lit_dec()[1], ("dec", 0.0), ("int", r.randint(-3, 3))])
+    if k == "str":
+        return g.lit_str()[1]
+    if k == "bool":
+        return ("bool", r.random() < 0.5)
+    if k == "list":
+        return g.lit_list()[1]
+    return r.choice([rv.NULL, ("int", r.randint(0, 3))])
+
+
+def ref_outcome(ctx, t, env):
+    try:
+        return ("value", rx.eval_expr(t, env, None))
+    except rx.RefError:
+        return ("rte",)
+    except (rx.Unspecified, OverflowError, ZeroDivisionError, RecursionError, MemoryError):
+        ctx.count("value_oracle_unspecified")
+        return None
+
+
+def agrees(got, want):
+    """got: abstract [flag, payload] list from the program; want: ref_outcome"""
+    if got[0] != "list" or len(got[1]) != 2:
+        return False
+    flag, payload = got[1]
+    if want[0] == "rte":
+        return flag == ("int", 1) and payload == ("str", "ERROR")
+    if flag != ("int", 0):
+        return False
+    w = want[1]
+    if payload[0] != w[0] or not rv.ref_eq(payload, w):
+        return False
+    if w[0] == "dec" and payload[1] != w[1] and not (payload[1] == 0 == w[1]):
+        return False
+    return True
+
+
+def membership_tree(r):
+    """`e in c` shapes where c will be a variable with a history and e is an element, a former element or a stranger"""
+    from cklgen import history
+    kind = r.choice(["list", "list", "set", "map", "str"])
+    atoms = [("int", r.randint(0, 4)) for _ in range(4)] + [("str", x) for x in ("a", "b", "")] + [("bool", True), rv.NULL, ("dec", 2.0), ("int", 2)]
+    r.shuffle(atoms)
+    n = r.randint(0, 4)
+    if kind == "list":
+        c = ("list", tuple(atoms[:n]))
+    elif kind == "set":
+        c = ("set", tuple(rv.dedupe(atoms[:n])))
+    elif kind == "map":
+        c = ("map", tuple(rv.dedupe_map([(a, ("int", i)) for i, a in enumerate(atoms[:n])])))
+    else:
+        c = ("str", r.choice(["", "a", "ab", "abc", "a,b", "xyz"]))
+    x = r.random()
+    if kind == "str":
+        e = ("str", r.choice(["a", "b", "ab", "", "Z", ",", "bc"]))
+    elif x < 0.5 and n:
+        e = atoms[r.randrange(n)]
+    elif x < 0.75:
+        e = r.choice([("int", v) for v in history.FRESH_INTS] + [("str", v) for v in history.FRESH_STRS])
+    else:
+        e = r.choice(atoms)
+    t = (r.choice(["in", "notin"]), ("lit", e), ("lit", c))
+    y = r.random()
+    if y < 0.2:
+        t = ("not", t)
+    elif y < 0.4:
+        t = (r.choice(["and", "or"]), [t, ("lit", ("bool", r.random() < 0.5))])
+    elif y < 0.5:
+        t = ("chain", [t, ("lit", ("bool", r.random() < 0.5))], [r.choice(["==", "!="])])
+    return t
+
+
+def chain_tree(r):
+    """comparison chains of 3-5 operands over small numbers, a later operand able to fail (division)"""
+    n = r.randint(3, 5)
+    ops = [r.choice(["<", "<=", "==", "!=", ">", ">="]) for _ in range(n - 1)]
+    operands = []
+    for i in range(n):
+        if i >= 2 and r.random() < 0.5:
+            operands.append(("bin", r.choice(["/", "%"]), ("lit", ("int", r.randint(1, 12))), ("lit", ("int", r.randint(1, 3)))))
+        elif r.random() < 0.2:
+            operands.append(("bin", r.choice(["+", "-"]), ("lit", ("int", r.randint(0, 5))), ("lit", ("int", r.randint(0, 3)))))
+        else:
+            operands.append(("lit", ("int", r.randint(0, 5))))
+    return ("chain", operands, ops)
+
+
+def run_rebind(spec, ctx):
+    """the same expression evaluated again and again with other values in its variables: as the body of a function
+    called with successive argument tuples (some ill-typed, so that an evaluation is abandoned half way), and over
+    variables whose values were reached by in-place edits after the expression had already been evaluated once"""
+    from cklgen import history
+    R = Runner(ctx)
+    r = ctx.rng
+    done = 0
+    while done < spec["n"]:
+        g = ge.ExprGen(r, max_depth=r.choice([2, 3, 4]), ticks=False)
+        shape = r.random()
+        small = False
+        if shape < 0.2:
+            t = membership_tree(r)
+            ctx.count("rebind_membership_trees")
+        elif shape < 0.4:
+            t = chain_tree(r)
+            small = True
+            ctx.count("rebind_chain_trees")
+        else:
+            t = g.any(0)
+        if ge.size(t) > 30:
+            continue
+        names = []
+        tv = abstract_leaves(t, r, names, p=0.9 if shape < 0.4 else 0.6)
+        if not names:
+            continue
+        done += 1
+        text = rx.render(tv, lit, full=r.random() < 0.3)
+        nops = len(ge.operators(t))
+        ctx.case(("rebind", text, tuple(names)), nontrivial=nops >= 1)
+        if done % 2 == 0:
+            # (a) one function body, successive calls
+            tuples = [[av for n, av in names]]
+            for _ in range(r.randint(2, 5)):
+                tuples.append([(("int", r.choice([0, 0, 1, 2, 3, 4, 5])) if small and r.random() < 0.9 else other_value(g, r, av)) for n, av in names])
+            if r.random() < 0.5:
+                tuples.append(tuples[0])
+            r.shuffle(tuples)
+            calls = ["R !> append(do [0, f(%s)] catch 'ERROR' do [1, 'ERROR'] end end)" % ", ".join(lit(av) for av in tp) for tp in tuples]
+            prog = "def f(%s) %s; def R = []; %s; R" % (", ".join(n for n, av in names), text, "; ".join(calls))
+            o, _ = R.ev(prog)
+            ctx.count("rebind_programs")
+            if o.kind != "value":
+                ctx.violation("C02:rebind:escape-%s" % o.kind, "%s -> %s %s" % (prog, o.kind, core.safe_str(o.exc, 200)), {"src": prog})
+                continue
+            try:
+                got = gv.abstract(o.value)
+            except gv.NotData:
+                ctx.violation("C02:rebind:not-data", "%s -> %s" % (prog, core.safe_str(o.value, 200)), {"src": prog})
+                continue
+            for j, tp in enumerate(tuples):
+                want = ref_outcome(ctx, tv, {n: v for (n, _), v in zip(names, tp)})
+                if want is None:
+                    break   # what an unspecified evaluation leaves behind is not modelled
+                ctx.count("rebind_evaluations")
+                if j >= len(got[1]) or not agrees(got[1][j], want):
+                    ctx.violation("C02:rebind:call-%s:%s" % ("first" if j == 0 else "later", opkey(t)),
+                                  "%s: call %d with %s gave %r, definition says %r" % (
+                                      prog, j, [lit(v) for v in tp], got[1][j] if j < len(got[1]) else None, want), {"src": prog})
+                    break
+        else:
+            # (b) variables reached by in-place edits after the expression was evaluated on the earlier values
+            stmts = []
+            tags = []
+            if shape < 0.2 and len(names) == 2 and names[1][1][0] != "str" and history.editable(names[1][1]):
+                # membership: build the container's history first and ask about a value the edits touched
+                st, tg = history.build(r, names[1][1], names[1][0], extra_primers=(text,))
+                if history.TOUCHED and r.random() < 0.7:
+                    names[0] = (names[0][0], r.choice(history.TOUCHED))
+                    ctx.count("membership_of_touched_value")
+                stmts += ["def %s = %s" % (names[0][0], lit(names[0][1]))] + st
+                tags += tg
+                names_iter = []
+            else:
+                names_iter = names
+            for n, av in names_iter:
+                if history.editable(av):
+                    st, tg = history.build(r, av, n, extra_primers=(text,))
+                    stmts += st
+                    tags += tg
+                else:
+                    stmts.append("def %s = %s" % (n, lit(av)))
+            # primers must see every variable defined: defs first, then primers and edits
+            defs = [x for x in stmts if x.startswith("def ")]
+            rest = [x for x in stmts if not x.startswith("def ")]
+            prog = "; ".join(defs + rest) + "; do [0, %s] catch 'ERROR' do [1, 'ERROR'] end end" % text
+            want = ref_outcome(ctx, tv, {n: av for n, av in names})
+            o, _ = R.ev(prog)
+            ctx.count("history_programs")
+            for tg in set(tags):
+                ctx.count("history_edit:" + tg)
+            if want is None:
+                continue
+            if o.kind != "value":
+                ctx.violation("C02:history:escape-%s" % o.kind, "%s -> %s %s" % (prog, o.kind, core.safe_str(o.exc, 200)), {"src": prog})
+                continue
+            try:
+                got = gv.abstract(o.value)
+            except gv.NotData:
+                got = ("other",)
+            ctx.count("history_evaluations")
+            if not agrees(got, want):
+                ctx.violation("C02:history:%s:%s" % ("+".join(sorted(set(tags)))[:60], opkey(t)),
+                              "%s gave %r, definition says %r" % (prog, got, want), {"src": prog})
+        ctx.sample_maybe({"rebind_program": prog[:400]}, 0.004)
+
+
 def run_laws(spec, ctx):
     R = Runner(ctx)
     r = ctx.rng
@@ -373,13 +624,14 @@ def run_predicates(spec, ctx):
 
 
 def run_shard(spec, ctx):
-    {"pairs": run_pairs, "random": run_random, "laws": run_laws, "predicates": run_predicates}[spec["kind"]](spec, ctx)
+    {"pairs": run_pairs, "random": run_random, "laws": run_laws, "predicates": run_predicates, "rebind": run_rebind}[spec["kind"]](spec, ctx)
 
 
 def finalize(merged, tier):
     c = merged["counters"]
     reasons = []
-    for k in ("grouping_comparisons", "value_comparisons", "chain_conjunction_comparisons", "law_evaluations", "predicate_pairs", "operator_pairs"):
+    for k in ("grouping_comparisons", "value_comparisons", "chain_conjunction_comparisons", "law_evaluations", "predicate_pairs", "operator_pairs",
+              "rebind_evaluations", "history_evaluations"):
         if c.get(k, 0) == 0:
             reasons.append("monitor counter %s is zero" % k)
     if c.get("renderer_mismatch", 0):
